@@ -225,25 +225,50 @@ func newInst(m metric.Meter, id, kind, k int, name, desc, unit string, icb metri
 const recValue = 5 // every measurement records 5 under its own attribute n=<measurement id>
 const obsValue = 7 // every callback observes 7 under its own attribute cb=<registration id>
 
+// Instrument classes for the value a measurement carries.
+const (
+	clsCounter = iota
+	clsUpDown
+	clsHist
+	clsGauge
+)
+
+func classOf(kind int) int { return kind % 4 } // kinds 0-3 / 4-7: counter, up-down counter, histogram, gauge
+
+// recVal: the value of measurement n on an instrument of the given class.  Besides the ordinary 5, a quarter
+// of the measurements are ZERO (a zero increment / zero sample is a measurement like any other: the SDK exports a
+// 0-valued point for an attribute set that received nothing else) and, on up-down counters and gauges, a quarter
+// are negative.  Every measurement has its own attribute set n=<id>.
+func recVal(class, n int) int {
+	switch {
+	case n%4 == 1:
+		return 0
+	case n%4 == 3 && (class == clsUpDown || class == clsGauge):
+		return -3
+	}
+	return recValue
+}
+
 func (x *inst) record(ctx context.Context, n int) {
 	a := metric.WithAttributes(attribute.Int("n", n))
+	v := recVal(classOf(x.kind), n)
 	switch h := x.h.(type) {
 	case metric.Int64Counter:
-		h.Add(ctx, recValue, a)
+		h.Add(ctx, int64(v), a)
 	case metric.Int64UpDownCounter:
-		h.Add(ctx, recValue, a)
+		h.Add(ctx, int64(v), a)
 	case metric.Int64Histogram:
-		h.Record(ctx, recValue, a)
+		h.Record(ctx, int64(v), a)
 	case metric.Int64Gauge:
-		h.Record(ctx, recValue, a)
+		h.Record(ctx, int64(v), a)
 	case metric.Float64Counter:
-		h.Add(ctx, recValue, a)
+		h.Add(ctx, float64(v), a)
 	case metric.Float64UpDownCounter:
-		h.Add(ctx, recValue, a)
+		h.Add(ctx, float64(v), a)
 	case metric.Float64Histogram:
-		h.Record(ctx, recValue, a)
+		h.Record(ctx, float64(v), a)
 	case metric.Float64Gauge:
-		h.Record(ctx, recValue, a)
+		h.Record(ctx, float64(v), a)
 	}
 }
 
@@ -707,20 +732,43 @@ type result struct {
 // many measurements the data point accounts for.
 func arrivals(rm *metricdata.ResourceMetrics) (byN map[string]map[int]int, byCB map[string]map[int]bool, bad []string) {
 	byN, byCB = map[string]map[int]int{}, map[string]map[int]bool{}
-	put := func(name string, set attribute.Set, sum float64, cnt int, useCnt bool) {
-		if v, ok := set.Value("n"); ok {
+	// a data point with attribute n=<id> accounts for k measurements: for sums k = sum / value (the point must
+	// exist and be exactly 0 for a zero-valued measurement), for gauges the point must show the value, for
+	// histograms k = count with sum = count * value
+	put := func(name string, set attribute.Set, class int, sum float64, cnt int) {
+		if a, ok := set.Value("n"); ok {
+			n := int(a.AsInt64())
 			if byN[name] == nil {
 				byN[name] = map[int]int{}
 			}
-			k := cnt
-			if !useCnt {
-				q := sum / recValue
-				k = int(q)
-				if float64(k) != q {
-					bad = append(bad, fmt.Sprintf("instrument %s measurement %d: value %v is not a multiple of %d", name, v.AsInt64(), sum, recValue))
+			v := float64(recVal(class, n))
+			k := 0
+			switch class {
+			case clsCounter, clsUpDown:
+				if v == 0 {
+					k = 1
+					if sum != 0 {
+						bad = append(bad, fmt.Sprintf("instrument %s measurement %d: value %v instead of 0", name, n, sum))
+					}
+				} else {
+					q := sum / v
+					k = int(q)
+					if float64(k) != q || k < 0 {
+						bad = append(bad, fmt.Sprintf("instrument %s measurement %d: value %v is not a multiple of %v", name, n, sum, v))
+					}
+				}
+			case clsGauge:
+				k = 1
+				if sum != v {
+					bad = append(bad, fmt.Sprintf("gauge %s measurement %d: value %v instead of %v", name, n, sum, v))
+				}
+			case clsHist:
+				k = cnt
+				if sum != float64(cnt)*v {
+					bad = append(bad, fmt.Sprintf("histogram %s measurement %d: sum %v count %d for samples of %v", name, n, sum, cnt, v))
 				}
 			}
-			byN[name][int(v.AsInt64())] += k
+			byN[name][n] += k
 		}
 		if v, ok := set.Value("cb"); ok {
 			if byCB[name] == nil {
@@ -729,38 +777,39 @@ func arrivals(rm *metricdata.ResourceMetrics) (byN map[string]map[int]int, byCB 
 			byCB[name][int(v.AsInt64())] = true
 		}
 	}
+	sumClass := func(monotonic bool) int {
+		if monotonic {
+			return clsCounter
+		}
+		return clsUpDown
+	}
 	for _, sm := range rm.ScopeMetrics {
 		for _, m := range sm.Metrics {
+			key := ikey(m.Name, m.Description, m.Unit)
 			switch d := m.Data.(type) {
 			case metricdata.Sum[int64]:
 				for _, p := range d.DataPoints {
-					put(ikey(m.Name, m.Description, m.Unit), p.Attributes, float64(p.Value), 0, false)
+					put(key, p.Attributes, sumClass(d.IsMonotonic), float64(p.Value), 0)
 				}
 			case metricdata.Sum[float64]:
 				for _, p := range d.DataPoints {
-					put(ikey(m.Name, m.Description, m.Unit), p.Attributes, p.Value, 0, false)
+					put(key, p.Attributes, sumClass(d.IsMonotonic), p.Value, 0)
 				}
 			case metricdata.Gauge[int64]:
 				for _, p := range d.DataPoints {
-					put(ikey(m.Name, m.Description, m.Unit), p.Attributes, float64(p.Value), 1, true)
+					put(key, p.Attributes, clsGauge, float64(p.Value), 1)
 				}
 			case metricdata.Gauge[float64]:
 				for _, p := range d.DataPoints {
-					put(ikey(m.Name, m.Description, m.Unit), p.Attributes, p.Value, 1, true)
+					put(key, p.Attributes, clsGauge, p.Value, 1)
 				}
 			case metricdata.Histogram[int64]:
 				for _, p := range d.DataPoints {
-					if p.Sum != int64(p.Count)*recValue {
-						bad = append(bad, fmt.Sprintf("histogram %s: sum %d count %d", m.Name, p.Sum, p.Count))
-					}
-					put(ikey(m.Name, m.Description, m.Unit), p.Attributes, 0, int(p.Count), true)
+					put(key, p.Attributes, clsHist, float64(p.Sum), int(p.Count))
 				}
 			case metricdata.Histogram[float64]:
 				for _, p := range d.DataPoints {
-					if p.Sum != float64(p.Count)*recValue {
-						bad = append(bad, fmt.Sprintf("histogram %s: sum %v count %d", m.Name, p.Sum, p.Count))
-					}
-					put(ikey(m.Name, m.Description, m.Unit), p.Attributes, 0, int(p.Count), true)
+					put(key, p.Attributes, clsHist, p.Sum, int(p.Count))
 				}
 			}
 		}
